@@ -492,8 +492,12 @@ func (in *Interp) exec(fr *frame, ins ssa.Instruction) {
 		if p.Obj == nil {
 			in.goPanicf("nil pointer dereference (field) at %s", in.posOf(ins, fr))
 		}
-		p = in.concretePtr(p)
 		st := ins.X.Type().Underlying().(*types.Pointer).Elem()
+		if p.Sym != nil {
+			// field of a symbolically indexed array element: keep the symbolic index
+			in.set(fr, ins, Pointer{Obj: p.Obj, Off: p.Off + in.layoutOf(st).fields[ins.Field], Sym: p.Sym, Stride: p.Stride, Count: p.Count})
+			break
+		}
 		in.set(fr, ins, Pointer{Obj: p.Obj, Off: p.Off + in.layoutOf(st).fields[ins.Field]})
 	case *ssa.Field:
 		a := in.get(fr, ins.X).(Agg)
@@ -597,14 +601,14 @@ func (in *Interp) storePtr(fr *frame, ins ssa.Instruction, p Pointer, v Value, t
 		in.goPanicf("nil pointer dereference (store) at %s", in.posOf(ins, fr))
 	}
 	if p.Sym != nil {
-		if p.Stride != 1 || isAgg(t) {
+		if _, scalar := v.(*smt.Term); !scalar || isAgg(t) {
 			p = in.concretePtr(p)
 		} else {
 			in.touch(p.Obj)
 			nv := in.term(v)
 			for i := 0; i < p.Count; i++ {
-				old := in.term(p.Obj.Cells[p.Off+i])
-				p.Obj.Cells[p.Off+i] = in.C.Ite(in.C.Eq(p.Sym, in.C.Const(p.Sym.W, uint64(i))), nv, old)
+				old := in.term(p.Obj.Cells[p.Off+i*p.Stride])
+				p.Obj.Cells[p.Off+i*p.Stride] = in.C.Ite(in.C.Eq(p.Sym, in.C.Const(p.Sym.W, uint64(i))), nv, old)
 			}
 			return
 		}
@@ -617,26 +621,30 @@ func (in *Interp) loadPtr(fr *frame, ins ssa.Instruction, p Pointer, t types.Typ
 		in.goPanicf("nil pointer dereference at %s", in.posOf(ins, fr))
 	}
 	if p.Sym != nil {
-		if p.Stride != 1 || isAgg(t) {
+		if isAgg(t) {
 			p = in.concretePtr(p)
 		} else {
-			return in.selectCell(p.Obj, p.Off, p.Count, p.Sym)
+			return in.selectCellStride(p.Obj, p.Off, p.Count, p.Stride, p.Sym)
 		}
 	}
 	return in.loadAt(p.Obj, p.Off, t)
 }
 
-// selectCell builds a balanced ite tree selecting cells[off+idx].
 func (in *Interp) selectCell(o *Object, off, count int, idx *smt.Term) Value {
+	return in.selectCellStride(o, off, count, 1, idx)
+}
+
+// selectCellStride builds a balanced ite tree selecting cells[off+idx*stride].
+func (in *Interp) selectCellStride(o *Object, off, count, stride int, idx *smt.Term) Value {
 	if _, ok := o.Cells[off].(*smt.Term); !ok {
 		// non-scalar cells: fork
 		i := int(in.concretize(idx, "index").Int())
-		return o.Cells[off+i]
+		return o.Cells[off+i*stride]
 	}
 	var build func(lo, hi int) *smt.Term
 	build = func(lo, hi int) *smt.Term {
 		if hi-lo == 1 {
-			return o.Cells[off+lo].(*smt.Term)
+			return o.Cells[off+lo*stride].(*smt.Term)
 		}
 		mid := (lo + hi) / 2
 		return in.C.Ite(in.C.Ult(idx, in.C.Const(idx.W, uint64(mid))), build(lo, mid), build(mid, hi))
